@@ -53,9 +53,14 @@ class HFn:
         for d in node.decorator_list:
             if not (isinstance(d, ast.Name) and d.id == "property"):
                 die(node, "decorator is not translated")
-        self.recursive = any(isinstance(n, ast.Call) and isinstance(n.func, ast.Attribute)
-                             and isinstance(n.func.value, ast.Name) and n.func.value.id == "self"
-                             and n.func.attr == node.name for n in ast.walk(node))
+        self.recursive = any(isinstance(n, ast.Call) and (
+            (isinstance(n.func, ast.Attribute) and isinstance(n.func.value, ast.Name) and n.func.value.id == "self"
+             and n.func.attr == node.name) or
+            (isinstance(n.func, ast.Name) and n.func.id == node.name and self.params[0] != "self"))
+            for n in ast.walk(node))
+        self.is_gen = any(isinstance(n, (ast.Yield, ast.YieldFrom)) for n in ast.walk(node))
+        self.uses_deepcopy = any(isinstance(n, ast.Call) and isinstance(n.func, ast.Attribute) and n.func.attr == "deepcopy"
+                                 for n in ast.walk(node))
 
     def fresh(self):
         self.tmp += 1
@@ -141,7 +146,10 @@ class HFn:
                 return pure(f"{CMP[type(op)]} {go(e.left)} {go(rhs)}")
             if isinstance(e, ast.Tuple):
                 if any(isinstance(x, ast.Starred) for x in e.elts):
-                    die(e, "starred tuple")
+                    parts = []
+                    for x in e.elts:
+                        parts.append(eff(f"hy_items {go(x.value)}") if isinstance(x, ast.Starred) else f"[{go(x)}]")
+                    return f"(VTuple ({' ++ '.join(parts)}))"
                 return f"(VTuple [{'; '.join(go(x) for x in e.elts)}])"
             if isinstance(e, ast.List):
                 if any(isinstance(x, ast.Starred) for x in e.elts):
@@ -195,6 +203,8 @@ class HFn:
                         return eff(self.tr.str_text(self, go(e.args[0])))
                     if f.id == "reversed" and len(e.args) == 1:
                         return eff(f"hy_reversed {go(e.args[0])}")
+                    if f.id == "enumerate" and len(e.args) == 1:
+                        return eff(f"hy_enumerate {go(e.args[0])}")
                     if f.id in getattr(self.tr, "functions", set()):
                         return eff(self.tr.call_text(self, f.id, [go(x) for x in e.args]))
                     die(e, f"call of {f.id} is not translated")
@@ -202,6 +212,9 @@ class HFn:
                     if isinstance(f.value, ast.Name) and f.value.id == "self" and f.attr in self.tr.methods:
                         args = [go(x) for x in e.args]
                         return eff(self.tr.call_text(self, f.attr, [self.v("self")] + args))
+                    if isinstance(f.value, ast.Name) and f.value.id == "copy" and f.attr == "deepcopy" \
+                            and "copy" not in env and len(e.args) == 1:
+                        return eff(f"hy_deepcopy fuel {go(e.args[0])}")
                     if isinstance(f.value, ast.Name) and f.value.id == "it" and f.attr == "chain" and "it" not in env:
                         parts = [go(x) for x in e.args]
                         t = eff(f"hy_chain [{'; '.join(parts)}]")
@@ -226,23 +239,44 @@ class HFn:
     def comp(self, gens, elt, env):
         """hm (list pv) text of a comprehension (items as a Coq list)"""
         g = gens[0]
-        if g.is_async or not isinstance(g.target, ast.Name):
-            die(g, "comprehension targets: a name")
+        if g.is_async:
+            die(g, "async comprehension")
         Li, it = self.ex(g.iter, env)
-        x = self.v(g.target.id)
-        env2 = set(env) | {g.target.id}
+        env2 = set(env)
+        if isinstance(g.target, ast.Name):
+            x, unpack = self.v(g.target.id), ""
+            env2.add(g.target.id)
+        else:
+            x = self.fresh()
+            unpack = self.hm_lines(self.unpack_target(g.target, x, env2))
         cond = "halways"
         if g.ifs:
             if len(g.ifs) != 1:
                 die(g, "one `if` per comprehension clause")
             Lc, c = self.ex(g.ifs[0], env2)
-            cond = f"(fun {x} => {self.hm_lines(Lc)} hy_truth {c})"
+            cond = f"(fun {x} => {unpack} {self.hm_lines(Lc)} hy_truth {c})"
         if len(gens) > 1:
             body = self.comp(gens[1:], elt, env2)
         else:
             Lb, b = self.ex(elt, env2)
             body = f"{self.hm_lines(Lb)} hret [{b}]"
-        return f"({self.hm_lines(Li)} hy_comp {it} {cond} (fun {x} => {body}))"
+        return f"({self.hm_lines(Li)} hy_comp {it} {cond} (fun {x} => {unpack} {body}))"
+
+    def unpack_target(self, target, atom, env):
+        """statement-level lines binding the names of a loop / comprehension target from the item"""
+        if isinstance(target, ast.Name):
+            env.add(target.id)
+            return [f"{self.v(target.id)} <~ hret {atom} ;;;"]
+        if isinstance(target, ast.Tuple) and 1 <= len(target.elts) <= 4:
+            n = len(target.elts)
+            parts = [self.fresh() for _ in target.elts]
+            fn = {1: "hy_unpack1", 2: "hy_unpack2", 3: "hy_unpack3", 4: "hy_unpack4v"}[n]
+            pat = parts[0] if n == 1 else "'(" + ", ".join(parts) + ")"
+            lines = [f"{pat} <~ {fn} {atom} ;;;"]
+            for t, a in zip(target.elts, parts):
+                lines += self.unpack_target(t, a, env)
+            return lines
+        die(target, "loop targets: names and tuples of 1 to 4 (possibly nested) targets")
 
     @staticmethod
     def hm_lines(L):
@@ -251,7 +285,7 @@ class HFn:
         for l in L:
             if "<~~" in l:
                 raise Reject("conditional expression inside a comprehension is not translated")
-            out.append(l.replace(" <~ ", " <~h ", 1))
+            out.append(l.replace(" <~ ", " <~h ", 1) if l.startswith("'") or " <~ " in l else l)
         return " ".join(out)
 
     # ---- statements
@@ -264,7 +298,7 @@ class HFn:
             elif isinstance(t, ast.Tuple):
                 for x in t.elts:
                     tgt(x)
-            elif isinstance(t, ast.Attribute):
+            elif isinstance(t, (ast.Attribute, ast.Subscript)):
                 pass
             else:
                 die(t, "unsupported assignment target")
@@ -288,7 +322,10 @@ class HFn:
                     if st.orelse:
                         die(st, "loop else clause")
                     walk(st.body)
-                elif isinstance(st, (ast.Return, ast.Raise, ast.Pass, ast.Expr)):
+                elif isinstance(st, ast.Expr):
+                    if isinstance(st.value, (ast.Yield, ast.YieldFrom)):
+                        out.add("acc_")
+                elif isinstance(st, (ast.Return, ast.Raise, ast.Pass)):
                     pass
                 else:
                     die(st, f"unsupported statement {type(st).__name__}")
@@ -340,6 +377,10 @@ class HFn:
             if isinstance(t, ast.Attribute):
                 Lr, r = self.ex(t.value, env)
                 return lines(L + Lr, f"_ <~ hy_setattr {r} {coq_str(t.attr)} {a} ;;;") + "\n" + cont()
+            if isinstance(t, ast.Subscript) and not isinstance(t.slice, ast.Slice):
+                Lr, r = self.ex(t.value, env)
+                Li, i = self.ex(t.slice, env)
+                return lines(L + Lr + Li, f"_ <~ hy_setitem {r} {i} {a} ;;;") + "\n" + cont()
             if isinstance(t, ast.Tuple) and len(t.elts) == 4 and all(isinstance(x, ast.Name) for x in t.elts) \
                     and a.startswith("(VTuple t"):
                 names = [x.id for x in t.elts]
@@ -352,8 +393,19 @@ class HFn:
             if isinstance(st.value, ast.Call):
                 L, _ = self.ex(st.value, env)
                 return lines(L) + "\n" + cont()
-            die(st, "expression statements: docstring or call")
+            if isinstance(st.value, ast.Yield) and st.value.value is not None:
+                L, a = self.ex(st.value.value, env)
+                return lines(L, f"let v_acc_ := v_acc_ ++ [{a}] in") + "\n" + cont()
+            if isinstance(st.value, ast.YieldFrom):
+                L, a = self.ex(st.value.value, env)
+                t = self.fresh()
+                return lines(L, f"{t} <~ hy_items {a} ;;;", f"let v_acc_ := v_acc_ ++ {t} in") + "\n" + cont()
+            die(st, "expression statements: docstring, call, yield, yield from")
         if isinstance(st, ast.Return):
+            if self.is_gen:
+                if st.value is not None:
+                    die(st, "return with a value in a generator")
+                return pad + "hrt (VTuple v_acc_)"
             if st.value is None:
                 return pad + "hrt VNone"
             L, a = self.ex(st.value, env)
@@ -383,17 +435,23 @@ class HFn:
                              [pad + f"{self.lam_pat(av)} <~~ (if {tb} then (", thn, pad + ") else (", els,
                               pad + ")) ;;;", cont()])
         if isinstance(st, ast.For):
-            if not isinstance(st.target, ast.Name):
-                die(st, "for targets: a name")
             av = self.assigned(st.body)
             pre = [f"let {self.v(x)} := VNone in" for x in av if x not in env]
             L, it = self.ex(st.iter, env)
             env_in = env | set(av)
-            body = self.block(st.body, env_in | {st.target.id}, f"hnx {self.pat(av)}", ind + 2)
+            env_body = set(env_in)
+            if isinstance(st.target, ast.Name):
+                x, unpack = self.v(st.target.id), []
+                env_body.add(st.target.id)
+            else:
+                x = self.fresh()
+                unpack = self.unpack_target(st.target, x, env_body)
+            body = self.block(st.body, env_body, f"hnx {self.pat(av)}", ind + 2)
             env |= set(av)
-            return "\n".join([pad + x for x in L + pre] +
-                             [pad + f"{self.lam_pat(av)} <~~ hy_for {it} (fun {self.v(st.target.id)} {self.lam_pat(av)} =>",
-                              body, pad + f"  ) {self.pat(av)} ;;;", cont()])
+            return "\n".join([pad + y for y in L + pre] +
+                             [pad + f"{self.lam_pat(av)} <~~ hy_for {it} (fun {x} {self.lam_pat(av)} =>"] +
+                             [pad + "    " + u for u in unpack] +
+                             [body, pad + f"  ) {self.pat(av)} ;;;", cont()])
         if isinstance(st, ast.Try):
             if st.orelse or st.finalbody or len(st.handlers) != 1:
                 die(st, "try: one except clause, no else / finally")
@@ -413,10 +471,13 @@ class HFn:
 
     def emit(self):
         env = set(self.params)
-        body = self.block(list(self.node.body), env, "hrt VNone", 2)
+        end = "hrt (VTuple v_acc_)" if self.is_gen else "hrt VNone"
+        body = self.block(list(self.node.body), env | ({"acc_"} if self.is_gen else set()), end, 2)
+        if self.is_gen:
+            body = "    let v_acc_ := @nil pv in\n" + body
         name = self.tr.mangle(self)
         params = " ".join(f"({self.v(p)} : pv)" for p in self.params)
-        head = f"(* {self.tr.qual(self)}{' [property]' if self.is_property else ''} *)\n"
+        head = f"(* {self.tr.qual(self)}{' [property]' if self.is_property else ''}{' [generator: returns the tuple of yielded items]' if self.is_gen else ''} *)\n"
         if self.recursive:
             return (head + f"Fixpoint {name} (fuel : nat) {params} {{struct fuel}} : hm pv :=\n"
                     f"  match fuel with\n  | O => hraise ModelError\n  | S fuel' =>\n    hfn_result (S:=unit) (\n{body}\n    )\n  end.\n")
@@ -502,6 +563,7 @@ VIEWS_SPEC = [
     ("text_runs.py", ["html_open", "html_close"]),
     ("depth_collector.py", ["Run.__str__", "Par.run_strings", "get_par_strings"]),
     ("docx_output.py", ["_join_runs"]),
+    ("iterators.py", ["enum_at_depth", "get_html_map"]),
 ]
 
 
@@ -530,15 +592,22 @@ class ViewsTranslator:
         return self.quals[id(fn)]
 
     def str_text(self, fn, atom):
+        if atom.startswith("(VTuple"):
+            return f"hy_str {atom}"          # str() of a tuple display: Python's repr of a tuple of ints
         return f"S_HV_str {atom}" if self.str_classes else f"hlift (py_str {atom})"
 
     def call_text(self, caller, callee, args):
+        if callee == caller.node.name and caller.recursive:
+            if len(args) != len(caller.params):
+                raise Reject(f"wrong number of arguments in a call of {callee}")
+            return f"{self.mangle(caller)} fuel' {' '.join(args)}"
         if callee not in self.fns:
             raise Reject(f"call of {callee}, which is not translated (yet)")
         f = self.fns[callee]
         if len(args) != len(f.params):
             raise Reject(f"wrong number of arguments in a call of {callee}")
-        return f"{self.mangle(f)} {' '.join(args)}"
+        fuel = "fuel " if self.fuelled[self.quals[id(f)]] else ""
+        return f"{self.mangle(f)} {fuel}{' '.join(args)}"
 
     def run(self):
         out = ["(* GENERATED by tools/gen_source_heap.py from /repo's source text - do not edit *)",
@@ -560,14 +629,17 @@ class ViewsTranslator:
                     if len(cls) != 1:
                         raise Reject(f"{mod}: class {parts[0]} not found exactly once")
                     body = cls[0].body
-                cands = [n for n in body if isinstance(n, ast.FunctionDef) and n.name == parts[-1]]
+                cands = [n for n in body if isinstance(n, ast.FunctionDef) and n.name == parts[-1]
+                         and not any(isinstance(d, ast.Name) and d.id == "overload" for d in n.decorator_list)]
                 if len(cands) != 1:
                     raise Reject(f"{mod}: {qual} not found exactly once")
+                cands = [n for n in cands if not any(isinstance(d, ast.Name) and d.id == "overload" for d in n.decorator_list)] or cands
                 fn = HFn(self, cands[0])
-                if fn.recursive:
-                    raise Reject(f"{qual}: recursion is not translated here")
                 self.quals[id(fn)] = qual
-                self.fuelled[qual] = False
+                callees = {n.func.id for n in ast.walk(cands[0]) if isinstance(n, ast.Call) and isinstance(n.func, ast.Name)}
+                self.fuelled[qual] = fn.recursive or fn.uses_deepcopy or any(
+                    self.fuelled.get(c) for c in callees if c in self.fns and c != cands[0].name)
+                self.functions.add(cands[0].name) if len(parts) == 1 else None
                 text = fn.emit()
                 self.fns[qual] = fn
                 if len(parts) == 1:
